@@ -77,7 +77,7 @@ PROPS["C01"] = {
 PROPS["C03"] = {
     "parts": [{"kind": "bin", "bin": "c03"}],
     "rule": "E2: parents of every length in 0..10 and WB(c), as owned Seq, slice at every bit offset of a flanked parent, slice of an offset-copied parent, SeqArray built from model words, Kmer deref; for every in-bounds (a,b) all seven range forms, get/nth/single index, nested re-slicing (depth 3 for n<=10, else 2), every out-of-bounds form just past the end (must panic / return None). A case is one parent (codec, kind, length, offset)",
-    "bound": {"quick": "n in 0..10 + WB(2 words); all noff offsets + 9 headed placements; (a,b) complete for n<=12 else within 2 of an end or word boundary; 22 array lengths; reduced K set",
+    "bound": {"quick": "n in 0..10 + WB(2 words); all noff offsets + 9 headed placements; (a,b) complete for n<=12 else within 2 of an end or word boundary; 22 array lengths; every K (k-mer deref parents); long lengths at 4 placements",
               "thorough": "n in 0..10 + WB(3 words); 2 patterns; (a,b) complete for offsets 0,1; every K"},
     "assumptions": COMMON_ASSUME + [SEP, "out-of-bounds means just past the end (n, n+1, n+2); reversed ranges are outside the property"],
     "technique": "bounded-exhaustive enumeration of parents x range forms x (a,b) x nesting on the real Index impls against a list model",
@@ -141,7 +141,7 @@ PROPS["C06"] = {
 PROPS["C04"] = {
     "parts": [{"kind": "bin", "bin": "c04"}],
     "rule": "E2 over k-mer types and producers: for every (codec, storage, K) in the tier's K set every content (all |alphabet|^K <= bound, else the P(K) family) through Kmer::try_from(&slice).bs at slice offsets, usize::try_from(&slice), u8::from(&slice), usize::from(Seq) fresh and offset-copied, usize::from(&Kmer), Kmer::from(int)/from(usize) and display; refusal of slices of fit+1, fit+2, 2fit, 2fit+1 symbols at every offset; for every word-boundary length every producer of an owned sequence (bsv/src/producers.rs, ~60 producers incl. edit histories) -> into_raw layout and from_raw for every count 0..=capacity+2; the README table literally",
-    "bound": {"quick": "K in the reduced set {1,2,3,4,mid,fit-1,fit} per (codec, storage); all contents when |alphabet|^K <= 65536; lengths WB(2 words)+{4,5,7}; 4 copy offsets",
+    "bound": {"quick": "every K that fits (634 k-mer types); all contents when |alphabet|^K <= 65536; lengths WB(2 words)+{4,5,7}+long lengths (4, 8 words +-1, 16 words+3); 4 copy offsets",
               "thorough": "every K that fits (634 k-mer types); all contents when |alphabet|^K <= 2^20; WB(3 words); every copy offset; 2 patterns"},
     "assumptions": COMMON_ASSUME + [SEP, "integer conversion is exercised on non-empty values only (the property says non-empty)", "bits of the word image beyond the sequence length are unspecified and not compared",
         "symbol codes are the codec's own to_bits() (C05 decides the tables)"],
@@ -153,7 +153,7 @@ PROPS["C04"] = {
 PROPS["C02"] = {
     "parts": [{"kind": "bin", "bin": "c02"}],
     "rule": "E2: pairs (X, Y) with Y in {equal, one symbol changed at every position, proper prefix, proper suffix, one symbol longer (back/front), empty}; X at slice offset s1 and Y at s2 (independent offsets); every realisation of each side (fresh Seq, Seq with non-zero head, &Seq, SeqSlice, &SeqSlice, SeqArray, Kmer over usize/u64/u128 when the length is a fitting K, &str); every PartialEq impl in both operand orders and != ; recorded hasher streams compared across all realisations of equal content; HashMap<Seq,_>::get(&SeqSlice) and HashSet<Seq> membership. A case is one (codec, length, s1, s2)",
-    "bound": {"quick": "lengths 0..4 + WB(2 words) + the reduced K sets; offset pairs with s1 or s2 in {0,1,noff/2+1,noff-1} or s1==s2; 14 array lengths",
+    "bound": {"quick": "lengths 0..4 + WB(2 words) + a reduced K set at offset pairs with s1 or s2 in {0,1,noff/2+1,noff-1} or s1==s2; every other fitting K (up to 128) and the long lengths (4, 8 words +-1, 16 words+3) at 4-5 offset pairs; 14 array lengths",
               "thorough": "lengths 0..4 + WB(2 words) + every fitting K (up to 128); all noff x noff offset pairs"},
     "assumptions": COMMON_ASSUME + [SEP, "hash streams are compared between representations, never with a constant, so a consistent change of the hashing scheme is not an alarm",
         "a difference only in which write_* call carries the same bytes is counted but not a violation"],
@@ -165,18 +165,18 @@ PROPS["C02"] = {
 PROPS["C08"] = {
     "parts": [{"kind": "bin", "bin": "c08"}],
     "rule": "E2 over k-mer types: for every (codec, storage, K) in the tier's K set all contents (|alphabet|^K <= 4096) or the P(K) family through try_from(&slice), unsafe_from_seqslice, from_str, Display, len, Deref, AsRef, Seq::from, == &str, TryFrom<Seq>; wrong lengths {0,K-1,K+1,K+2,2K,K+spw} and invalid text must be errors; for usize-backed types kmers::<K>() against the model windows and against windows(K) for sequences of length {0,K-1,K,K+1,K+2,K+spw+1,2K+1} at slice offsets (plain and headed parents), plus the iterator protocol of KmerIter",
-    "bound": {"quick": "reduced K set per (codec, storage); 9 of noff offsets for iteration", "thorough": "every K that fits (634 types); all offsets"},
+    "bound": {"quick": "every K that fits (634 types); 9 of noff offsets for iteration", "thorough": "every K that fits (634 types); all offsets"},
     "assumptions": COMMON_ASSUME + [SEP, "kmer! literals are decided with the other literal macros in C16"],
     "technique": "bounded-exhaustive enumeration of k-mer types x contents x lengths x bit offsets on the real constructors and KmerIter against list windows; iterator protocol exploration",
     "level_text": "Each k-mer type in the K set is built from every content in the bound through every constructor and read back through every accessor; every wrong length and invalid text must be refused; KmerIter is compared item by item with the model windows and with windows(K) at every offset and driven through every next/nth/consumer sequence up to depth 2.",
-    "level_note": "The quick tier instantiates a reduced K set; thorough covers all 634 types.",
+    "level_note": "Both tiers reach all 634 k-mer types; thorough adds all slice offsets for iteration.",
 }
 
 PROPS["C09"] = {
     "parts": [{"kind": "bin", "bin": "c09"}],
     "exhaustive_flags": ["graph: every k-mer of the type was reached and expanded"],
     "rule": "E1 explicit-state: for every k-mer type with |alphabet|^K <= bound the state graph of ALL k-mers under rotated_left(1), rotated_right(1), pushl(x), pushr(x) for every symbol, to_rev/rev (usize-backed) and comp/revcomp (2-bit DNA) is explored completely by BFS, every transition compared with the list model and checked for canonical form; E2: for every type in the K set the P(K) family x rotation counts (0..2K+1, multiples of K, 65535..65537, 2^31, u32::MAX-K..u32::MAX) x pushes x unary ops, depth-2 chains, revcomp involution and canonical min(k, revcomp k)",
-    "bound": {"quick": "graphs with |alphabet|^K <= 256; family over the reduced K set", "thorough": "graphs with |alphabet|^K <= 4096; family over every K"},
+    "bound": {"quick": "graphs with |alphabet|^K <= 256; family over every K", "thorough": "graphs with |alphabet|^K <= 4096; family over every K"},
     "assumptions": COMMON_ASSUME + [SEP, "complement oracle = the codec's symbol-level complement"],
     "technique": "explicit-state model checking of the complete k-mer state graph for small K (every state, every transition) plus bounded-exhaustive families for large K, against list operations packed little-endian",
     "level_text": "For small K every k-mer of the type and every operation out of it is executed on the real code (complete graph, fixpoint reported); for large K every symbol at every position with every rotation count class and every pushed symbol, with depth-2 chains. Every result is compared with the same operation on the symbol list and must stay below 2^(K*BITS).",
@@ -186,7 +186,7 @@ PROPS["C09"] = {
 PROPS["C10"] = {
     "parts": [{"kind": "bin", "bin": "c10"}],
     "rule": "E2 over orderable codecs (those whose symbol type is Ord: dna, text, masked dna, masked iupac, degenerate): all pairs of k-mers for every type with |alphabet|^K <= bound (cmp, partial_cmp, <, <=, >, >=, ==, != against integer order and the colexicographic model; all triples when the type has <= 64 values); for every type in the K set pairs differing in exactly one position (every position, every symbol pair) with all lower positions ordered the opposite way; min/max/sort of the k-mers of sequences; all pairs of equal-length owned sequences up to 256 sequences per length and one-position pairs at every word-boundary length, fresh and headed",
-    "bound": {"quick": "all pairs for |alphabet|^K <= 256; reduced K set; WB(2 words)", "thorough": "all pairs for |alphabet|^K <= 1024; every K; WB(3 words)"},
+    "bound": {"quick": "all pairs for |alphabet|^K <= 256; one-position families for every K; WB(2 words) + 4 long lengths for owned sequences", "thorough": "all pairs for |alphabet|^K <= 1024; every K; WB(3 words)"},
     "assumptions": COMMON_ASSUME + [SEP, "codecs whose symbols are not Ord (iupac::Iupac, amino::Amino) have no Kmer/Seq ordering at all (a compile error, not a wrong answer), so 'every codec' means the five orderable ones",
         "owned sequences of different lengths are outside the property"],
     "technique": "exhaustive enumeration of all pairs/triples of small k-mer types and bounded-exhaustive one-position families on the real Ord/PartialOrd impls against integer and colexicographic order",
@@ -197,7 +197,7 @@ PROPS["C10"] = {
 PROPS["C18"] = {
     "parts": [{"kind": "bin", "bin": "c18"}],
     "rule": "E2: for all 7 codecs and every word-boundary length, every producer of an owned sequence (bsv/src/producers.rs: parsed, collected, copies of offset slices, rev/comp/mask and bitwise results, edit histories leaving dead bits / kept allocations, empty values with a history, with_capacity) plus values deserialized with every chosen non-zero head and set dead bits, through bincode and serde_json; for every k-mer type in the K set all contents (<= 4096) or the P(K) family through both formats",
-    "bound": {"quick": "WB(2 words)+{4,5,7}; 4 copy offsets; 11 heads; reduced K set", "thorough": "WB(3 words); every copy offset; all 63 heads; every K (634 types)"},
+    "bound": {"quick": "WB(2 words)+{4,5,7}+long lengths; 4 copy offsets; 11 heads; every K", "thorough": "WB(3 words); every copy offset; all 63 heads; every K (634 types)"},
     "assumptions": COMMON_ASSUME + [SEP, "bincode 1.3 and serde_json as pinned are part of the environment, not of the subject"],
     "technique": "bounded-exhaustive enumeration of owned-sequence histories x lengths and of k-mer types x contents on the real Serialize/Deserialize impls, with a differential oracle from the deserialized (non-initial) state",
     "level_text": "Every way of producing an owned sequence that the harness knows (about 70 producers, including non-zero heads and dead bits) at every word-boundary length, and every k-mer type in the K set, is serialized and deserialized by the real impls in both formats; the result must equal the original, hash and display alike, and behave alike under further edits.",
